@@ -40,7 +40,8 @@ type connCase struct {
 }
 
 type relayCase struct {
-	Conns []connCase `json:"conns"`
+	Conns  []connCase `json:"conns"`
+	IdleMs int        `json:"idle_ms,omitempty"` // configured idle time-out (0: the 10 min default)
 }
 
 const ioDeadline = 30 * time.Second
@@ -163,7 +164,7 @@ func checkRelay(c relayCase) (nt bool, v *verdict) {
 		hosts = append(hosts, host.New(b.Addr))
 	}
 	// Healthy() is sorted by address: map connection i to the backend it will reach
-	px, err := tcpsim.Start(tcpsim.Opts{Hosts: hosts})
+	px, err := tcpsim.Start(tcpsim.Opts{Hosts: hosts, IdleTimeout: time.Duration(c.IdleMs) * time.Millisecond})
 	if err != nil {
 		return false, &verdict{"proxy-start", err.Error()}
 	}
@@ -256,7 +257,7 @@ func checkRelay(c relayCase) (nt bool, v *verdict) {
 		} else if cres[i].got != wantC {
 			res[i] = &verdict{"backend-to-client-length", fmt.Sprintf("connection %d (%s): client received %d bytes before EOF, backend sent %d", i, cc.Close, cres[i].got, wantC)}
 		}
-		if (cc.C2B.Len > 16384 && cc.B2C.Len > 16384) || (cc.Extra > 0 && cc.Close != "both-half") {
+		if (cc.C2B.Len > 16384 && cc.B2C.Len > 16384) || (cc.Extra > 0 && cc.Close != "both-half") || c.IdleMs > 0 {
 			nt = true
 		}
 	}
@@ -322,7 +323,25 @@ func avg(xs []int) int {
 	return t/len(xs) + 1
 }
 
+// genPaced: one side says little and half-closes (or stays silent), the other streams for about 2.5x the idle
+// time-out with gaps far below it: the stream must arrive completely (an idle cut-off is per read).
+func genPaced(t *rapid.T) relayCase {
+	const idle = 1200
+	c := relayCase{IdleMs: idle}
+	small := stream{Len: rapid.IntRange(0, 100).Draw(t, "small"), Chunks: []int{100}, GapUs: []int{0}, ReadSz: 4096}
+	long := stream{Len: 30 * 1024, Chunks: []int{1024}, GapUs: []int{100000}, ReadSz: 4096}
+	if rapid.Bool().Draw(t, "backendstreams") {
+		c.Conns = []connCase{{C2B: small, B2C: long, Close: "both-half"}}
+	} else {
+		c.Conns = []connCase{{C2B: long, B2C: small, Close: "both-half"}}
+	}
+	return c
+}
+
 func genRelay(t *rapid.T) relayCase {
+	if rapid.IntRange(0, 9).Draw(t, "paced") == 0 {
+		return genPaced(t)
+	}
 	var c relayCase
 	n := rapid.SampledFrom([]int{1, 1, 2, 4, 8, 16}).Draw(t, "conns")
 	maxLen := 1 << 20
@@ -355,6 +374,9 @@ func TestRelay(t *testing.T) {
 		}
 		if len(c.Conns) > 1 {
 			vh.Rec().Class("relay", "concurrent_connections")
+		}
+		if c.IdleMs > 0 {
+			vh.Rec().Class("relay", "one_direction_streams_longer_than_the_idle_timeout")
 		}
 		vh.Rec().Sample("relay", nt, func() interface{} { return c })
 	})
